@@ -120,6 +120,8 @@ template <typename Item, typename Alloc>
 void bag<Item, Alloc>::swap(self_type &s) {
   m_comm.barrier();
   m_local_bag.swap(s.m_local_bag);
+  // No rank may use either container before every rank has swapped.
+  m_comm.cf_barrier();
 }
 
 template <typename Item, typename Alloc>
